@@ -769,6 +769,27 @@ class LanguageFile(LanguageWords):
     def own(self, inst, sc):
         return self.text(inst['X'])
 
+    def mutants(self, rng, inst, own):
+        out = LanguageWords.mutants(self, rng, inst, own)
+        # an answer that agrees with the reference up to the bound of the EARLIER call only: exactly the reference words of length <= len0
+        X = (enc.build_dfa if self.kind == 'dfa' else enc.build_nfa)(inst['X'])
+        Sig = sorted(inst['X']['Sigma'])
+        for k in sorted({inst['len0'], 1}):
+            W = lang_of(X, min(k, 3))
+            pref = sorted({w[:i] for w in W for i in range(len(w) + 1)} | {''})
+            name = {p: 't%d' % i for i, p in enumerate(pref)}
+            delta = []
+            for p in pref:
+                for a in Sig:
+                    delta.append([name[p], a, name.get(p + a, 'sink')])
+            delta += [['sink', a, 'sink'] for a in Sig]
+            spec = {'Q': [name[p] for p in pref] + ['sink'], 'Sigma': Sig, 'delta': delta, 'q0': name[''], 'F': [name[w] for w in sorted(W)]}
+            try:
+                out.append(DA.print_dfa(enc.build_dfa(spec)))
+            except Exception:
+                pass
+        return out
+
     def check(self, inst, ans):
         f = NB.check_dfa_language_from_file if self.kind == 'dfa' else NB.check_nfa_language_from_file
         sc = Scratch()
